@@ -1,6 +1,7 @@
 package system
 
 import (
+	"bytes"
 	"encoding/json"
 	"errors"
 	"math/big"
@@ -228,4 +229,109 @@ func VF_C15_a() {
 		g.checkAccounting()
 	}
 	vf.Observe("total", g.gTotal)
+}
+
+// ---------------------------------------------------------------------------------------------
+// C15.e: the in-memory voting power rank equals the one rebuilt (loadVpr) from the buckets it wrote to state.
+// The rank is driven exactly as the vote commands drive it (vprCmd.subVpr/addVpr then VoteResult.Sync -> apply):
+// one voter changes its voting power per step (first vote, re-vote with a bigger or smaller stake, or power 0 after
+// a full unstake), powers symbolic.
+
+var vfAddrC = append([]byte{0x02}, make32(0x33)...)
+
+func vfVprSame(a, b *vpr, ob string, flip bool) {
+	vf.Assert(a.getTotalPower().Cmp(b.getTotalPower()) == 0, ob+".total")
+	// buckets: same voters in the same order with the same address and power
+	for i := uint8(0); i < vprBucketsMax; i++ {
+		la, lb := a.store.buckets[i], b.store.buckets[i]
+		na, nb := 0, 0
+		if la != nil {
+			na = la.Len()
+		}
+		if lb != nil {
+			nb = lb.Len()
+		}
+		vf.Assert(na == nb, ob+".store")
+		if na == 0 || na != nb {
+			continue
+		}
+		ea, eb := la.Front(), lb.Front()
+		for ea != nil && eb != nil {
+			x, y := toVotingPower(ea), toVotingPower(eb)
+			vf.Assert(x.getID() == y.getID(), ob+".store")
+			vf.Assert(string(x.getAddr()) == string(y.getAddr()), ob+".store")
+			vf.Assert(x.getPower().Cmp(y.getPower()) == 0, ob+".store")
+			ea, eb = ea.Next(), eb.Next()
+		}
+	}
+	// voters: same id -> power map
+	vf.Assert(len(a.voters.powers) == len(b.voters.powers), ob+".voters")
+	for id, x := range a.voters.powers {
+		y := b.voters.powers[id]
+		vf.Assert(y != nil, ob+".voters")
+		if y != nil {
+			vf.Assert(x.getPower().Cmp(y.getPower()) == 0, ob+".voters")
+		}
+	}
+	// ranking tree: one member per voter, same sequence
+	const fid = "Fgov1-vpr-rank-tree-stale-node"
+	vf.AssertKnown(a.voters.members.Size() == len(a.voters.powers), ob+".members", fid, flip)
+	ka, kb := a.voters.members.Keys(), b.voters.members.Keys()
+	vf.AssertKnown(len(ka) == len(kb), ob+".members", fid, flip)
+	if len(ka) == len(kb) {
+		for i := range ka {
+			x, y := ka[i].(*votingPower), kb[i].(*votingPower)
+			vf.AssertKnown(x.getID() == y.getID(), ob+".members", fid, flip)
+		}
+	}
+}
+
+func VF_C15_e() {
+	steps := vf.Param("steps", 3)
+	nv := vf.Param("voters", 2)
+	g := vfNewGov()
+	votingPowerRank = newVpr()
+	addrs := [][]byte{vfAddrA, vfAddrB, vfAddrC}[:nv]
+	old := make([]*big.Int, nv)
+	// class of the known finding: a ranked voter's power changes such that its rank order relative to another ranked
+	// voter changes (topVoters.addVotingPower mutates the key in place before members.Remove looks it up)
+	flip := false
+	// before(p,i,q,j): voter i with power p ranks before voter j with power q (power descending, then id descending);
+	// built without Go branches so that the harness does not fork
+	before := func(p *big.Int, i int, q *big.Int, j int) bool {
+		ii, jj := types.ToAccountID(addrs[i]), types.ToAccountID(addrs[j])
+		idBefore := bytes.Compare(ii[:], jj[:]) > 0
+		return vf.Or(p.Cmp(q) > 0, vf.And(p.Cmp(q) == 0, idBefore))
+	}
+	for s := 0; s < steps; s++ {
+		i := vf.Choice("voter", nv)
+		id := types.ToAccountID(addrs[i])
+		pow := vf.Big("power")
+		vf.Assume(pow.Cmp(vfAmtBound) < 0)
+		// 0 (vote withdrawn by a full unstake) or a power of exactly powerBytes bytes (keeps the byte-length case split small)
+		lo := new(big.Int).SetBytes(append([]byte{1}, make([]byte, vf.Param("powerBytes", 11)-1)...))
+		hi := new(big.Int).SetBytes(append([]byte{1}, make([]byte, vf.Param("powerBytes", 11))...))
+		vf.Assume(vf.Or(pow.Sign() == 0, vf.And(pow.Cmp(lo) >= 0, pow.Cmp(hi) < 0)))
+		if old[i] != nil {
+			for j := range old {
+				if j != i && old[j] != nil {
+					moved := before(old[i], i, old[j], j) != before(pow, i, old[j], j)
+					flip = vf.Or(flip, vf.And(vf.And(old[i].Sign() != 0, old[j].Sign() != 0), moved))
+				}
+			}
+			votingPowerRank.sub(id, addrs[i], old[i])
+		}
+		votingPowerRank.add(id, addrs[i], pow)
+		old[i] = pow
+		n, err := votingPowerRank.apply(g.scs)
+		vf.Assert(err == nil, "C15.e.apply")
+		_ = n
+	}
+	loaded, err := loadVpr(g.scs)
+	vf.Reach("C15.e")
+	vf.Assert(err == nil, "C15.e.load")
+	if err == nil {
+		vfVprSame(votingPowerRank, loaded, "C15.e", flip)
+	}
+	vf.Observe("total", votingPowerRank.getTotalPower())
 }
